@@ -422,8 +422,8 @@ func (r *rewriter) rewriteSelector(c *astutil.Cursor, n *ast.SelectorExpr) {
 
 // substCall applies the call-site substitution table.
 func (r *rewriter) substCall(n *ast.CallExpr) {
-	if len(r.cfg.Subst) == 0 {
-		return
+	if len(r.cfg.Subst) == 0 || strings.HasPrefix(filepath.Base(r.filename), "verif_") {
+		return // hook files call the originals
 	}
 	var obj types.Object
 	switch f := n.Fun.(type) {
